@@ -303,7 +303,7 @@ MANIFEST = {
         "category": "proof",
         "text": ("Coq theorems over an exact-arithmetic (LegacyDec on raw integers) model of oracle.EndBlocker's price path, "
                  "for ALL validator sets / powers / Votes stores / whitelists / stored rates / heights / parameters: "
-                 "C10_holds_for_every_input (inside the overflow-free domain the update never panics, a pair gets a "
+                 "C10_holds_for_every_input (for Validate-accepted parameters the update never panics, a pair gets a "
                  "price-update event and a fresh store entry iff it is whitelisted and its votes carry power <> 0, >= "
                  "RoundInt(VoteThreshold x bonded power) and come from >= MinVoters positive votes; the rate satisfies the "
                  "balance property 2*below <= T and 2*above <= T+1 and is a submitted positive rate of an eligible validator "
@@ -321,12 +321,14 @@ MANIFEST = {
         "design_ref": "DESIGN.md §5 C10",
     },
     "level_note": ("Assumes: staking state as returned by the staking keeper (read back and given to the model), powers >= 0 "
-                   "and summing below 2^63. Domain of the full theorem: VoteThreshold*bondedPower inside the Dec range and "
-                   "below 2^256 after rounding, |rate| <= 2^255, created+ExpirationBlocks < 2^64, RewardBand in [0,1]. Outside "
-                   "it the current code provably (C10_*_outside_domain, confirmed on the implementation by the driver's fixed "
-                   "openers) wraps the uint64 expiry sum or panics in EndBlock; Params.Validate accepts such values - reported "
-                   "as low-severity findings, not counted as violations. Trusted: Coq kernel + vm_compute, Lib/Dec.v, the Go "
-                   "driver's canonicalisation, tools/props/c10.py rendering. A change of the pivot test from >= to > yields "
-                   "another valid weighted median: it is caught by the correspondence (model mismatch), not by Pb."),
+                   "and summing below 2^63. Domain of the full theorem = the property's own quantifier: parameters accepted by "
+                   "Params.Validate (Spec.params_valid, tied to the real Validate and MsgEditOracleParams by a driver), bonded "
+                   "power fitting int64, rates being LegacyDec values. The former overflow side conditions are gone: the three "
+                   "defects found by this check (uint64 wrap of created+ExpirationBlocks, VoteThreshold unbounded / edits not "
+                   "validated, Tally median.Add(spread) overflow) were fixed in /repo (48f939b, 662a06f, 66a0ce3); the old "
+                   "variants are kept behind flags with refutation witnesses. Trusted: Coq kernel + vm_compute, Lib/Dec.v, the "
+                   "Go drivers' canonicalisation, tools/props/c10.py rendering. A change of the pivot test from >= to > yields "
+                   "another valid weighted median: it is caught by the correspondence (model mismatch), not by Pb. "
+                   "params.Whitelist = WhitelistedPairs store along histories (refreshWhitelist not modelled)."),
     "technique": "Coq proof over an exact-arithmetic model + differential correspondence on keeper-level EndBlocker runs",
 }
